@@ -349,3 +349,9 @@ def run(repo, rep, tier):
     rep.check('crc', 'CRC update: crc = (crc >> 8) ^ table[(byte ^ crc) & 0xff]', 'n ^ crc & 255' in t and 'crc >> 8 ^ self._table[n]' in t, cc, 'CRC update step changed')
     t = unparse(rp)
     rep.check('crc', 'SSH-1 reader verifies the CRC over padding + payload', 'SSH1.crc32(padding + payload)' in t and 'crc != rcrc' in t, rp, 'SSH-1 CRC verification changed')
+
+    # ---- reader side of "packets are well framed": every packet the tool emits is read back unchanged only if read_packet consumes the whole
+    # packet before returning (shared symbolic byte budget, props/_framing.py)
+    from props import _framing
+    _rp, _fr = _framing.analyse(repo, rep)
+    _framing.report(rep, _fr, 'read-framing')
